@@ -11,6 +11,7 @@ package main
 //      and one burst through the HTTP handler in real time
 
 import (
+	"context"
 	"encoding/json"
 	"fmt"
 	"io/ioutil"
@@ -261,6 +262,74 @@ func (c *c14Totp) entry(user string) (lc, fc, lf, lo int64) {
 	return v(e.lastCheckTime), int64(e.failCount), v(e.lastFailTime), v(e.lockoutExpirationTime)
 }
 
+// the step of the last accepted code as remembered in the throttle entry (0: no entry, or a tree without the field)
+func (c *c14Totp) memCounter(user string) int64 {
+	st := c.env.state
+	st.totpLocalTateLimitMutex.Lock()
+	defer st.totpLocalTateLimitMutex.Unlock()
+	e, ok := st.totpLocalRateLimit[user]
+	if !ok {
+		return 0
+	}
+	if f := reflect.ValueOf(&e).Elem().FieldByName("lastSuccessCounter"); f.IsValid() && f.Kind() == reflect.Int64 {
+		return *(*int64)(unsafe.Pointer(f.UnsafeAddr()))
+	}
+	return 0
+}
+
+// ... and as written to the profile in the primary database
+func (c *c14Totp) persistedCounter(t *testing.T, user string) int64 {
+	for try := 0; ; try++ {
+		profile, _, fromCache, err := c.env.state.LoadUserProfile(user)
+		if err == nil && !fromCache {
+			return profile.LastSuccessfullTOTPCounter
+		}
+		if try >= 5 { // (a primary that needs more than remoteDBQueryTimeout = 2 s, six times in a row)
+			t.Fatalf("reading the profile of %s from the primary: fromCache=%v err=%v", user, fromCache, err)
+		}
+		time.Sleep(50 * time.Millisecond)
+	}
+}
+
+// the `Cached` request modifier (Model/TotpLimit.v rop, as harness/kmd/c05.go does it): the cache database is
+// brought up to date with the primary and remoteDBQueryTimeout is zero for the duration of the call, so that
+// the LoadUserProfile of exactly this call takes its cache branch (fromCache = true) with current data.
+// prepare() is the part that may take long and runs before the virtual clock is set.
+func (c *c14Totp) cachePrepare(t *testing.T) {
+	st := c.env.state
+	if err := copyDBIntoSQLite(st.db, st.cacheDB, "sqlite"); err != nil {
+		t.Fatalf("copying into the cache: %v", err)
+	}
+}
+
+//
+// That the primary loses the race against a zero deadline is likely but not certain on a loaded machine (its
+// reader only sleeps 10 ms first), so the primary is also made to really not answer: the pool of the primary
+// is limited to one connection and the harness holds it for the duration of the call; the primary's readers
+// wait for a connection and go on when it is handed back.
+func (c *c14Totp) validateCached(t *testing.T, user string, code int, probe bool) (ok bool, err error, probed bool) {
+	st := c.env.state
+	st.db.SetMaxOpenConns(1)
+	conn, cerr := st.db.Conn(context.Background())
+	if cerr != nil {
+		t.Fatalf("holding the primary's connection: %v", cerr)
+	}
+	old := st.remoteDBQueryTimeout
+	st.remoteDBQueryTimeout = 0
+	if probe {
+		_, _, probed, _ = st.LoadUserProfile(user) // does a profile read made now really come from the cache?
+	}
+	ok, err = st.validateUserTOTP(user, code, time.Now())
+	// the deadline is restored before the connection is handed back: the waiting readers of the primary then
+	// do not sleep (LoadUserProfile's 10 ms under a zero deadline) and are through within a millisecond or so
+	st.remoteDBQueryTimeout = old
+	conn.Close()
+	st.db.SetMaxOpenConns(0)
+	st.db.SetMaxIdleConns(2) // database/sql's default, lowered by SetMaxOpenConns(1)
+	time.Sleep(4 * time.Millisecond)
+	return
+}
+
 // a code that matches none of the steps the validator looks at
 func c14Garbage(secret string, now time.Time) int {
 	valid := map[string]bool{}
@@ -279,6 +348,13 @@ func c14Garbage(secret string, now time.Time) int {
 // from the loop body of performStateCleanup, see lib/checks/loopbody.py); nil if that failed
 var c14CleanupOnce func(*RuntimeState)
 
+func c14LockText(lo, t int64) string {
+	if lo == 0 {
+		return "never set"
+	}
+	return fmt.Sprintf("ends %d s later", (lo-t)/1e9)
+}
+
 // the attempts and cleanup passes of one user so far, for the replay file
 func c14History(obs []c14TotpObs, ui int) []string {
 	var h []string
@@ -294,7 +370,11 @@ func c14History(obs []c14TotpObs, ui int) []string {
 		if o.cleanup {
 			h = append(h, at+" cleanup-pass")
 		} else {
-			h = append(h, fmt.Sprintf("%s %s accepted=%v failCount=%d", at, []string{"fresh-code", "used-code", "wrong-code"}[o.verdict], o.ok, o.fc))
+			src := ""
+			if o.cached {
+				src = "cached+"
+			}
+			h = append(h, fmt.Sprintf("%s %s%s accepted=%v failCount=%d", at, src, []string{"fresh-code", "used-code", "wrong-code"}[o.verdict], o.ok, o.fc))
 		}
 	}
 	if len(h) > 40 {
@@ -312,6 +392,11 @@ type c14TotpObs struct {
 	ok      bool
 	lc, fc  int64
 	lf, lo  int64
+	// the read source and the replay guard (Model/TotpLimit.v attempt_src)
+	cached           bool  // the profile of this attempt came from the cache database
+	code             int64 // the step the submitted code belongs to; -1 a code of no step; -2 cleanup pass
+	preMem, prePers  int64 // remembered / persisted step of the last success before the call
+	postMem, postPer int64 // ... and after it
 }
 
 func TestVerif_C14(t *testing.T) {
@@ -1123,11 +1208,18 @@ Print c14_okta_violating.
 		tt.enroll(t, u)
 	}
 	gaps := []int64{0, 311e6, 1523e6, 1789e6, 2213e6, 2531e6, 5037e6, 60071e6, 3598113e6, 3602127e6, 7198139e6, 7202149e6, 3*3600e9 + 157e6, 24*3600e9 - 10163e6, 24*3600e9 + 10171e6, 30*3600e9 + 181e6}
-	nScen, scenLen := 44, 30
+	// skeletons: 9 shapes x 4 assignments of read sources.  Shapes 0..7 as before (spaced failures only / with a
+	// right code / with lock-out waits; 4..7 = 0..3 with a cleanup pass before every guess), shape 8 = accepted code,
+	// the same code twice more (the replay guard as the code applies it, nothing forced), three wrong codes, repeat.
+	// Sources: 0 every profile from the primary; 1 every attempt served from the cache (Cached); 2 alternating;
+	// 3 blocks of five (cached, direct, cached, ...).
+	const nShape, nMode = 9, 4
+	const nSkel = nShape * nMode
+	nScen, scenLen := nSkel+36, 30
 	if thorough {
-		nScen, scenLen = 404, 60
+		nScen, scenLen = nSkel+396, 60
 	}
-	const nSkel = 8
+	cachedAttempts, cacheProbes, cachedProbed := 0, 0, 0
 	if c14CleanupOnce == nil {
 		res.bump("totp:no-cleanup-hook")
 	}
@@ -1142,6 +1234,15 @@ Print c14_okta_violating.
 		tenv.state.totpLocalTateLimitMutex.Unlock()
 		var obs []c14TotpObs
 		failBias := rng.Intn(3) // some scenarios are mostly failures so that lock-outs build up
+		shape, mode, sk := -1, 0, -1
+		if s < nSkel {
+			shape, mode = s%nShape, s/nShape
+			if shape < 8 {
+				sk = shape % 4
+			}
+		}
+		cachedBias := s % 3 // random scenarios: none / a quarter / half of the attempts served from the cache
+		lastAccStep := map[int]int64{}
 		for i := 0; i < scenLen; i++ {
 			var gap int64
 			if rng.Intn(3) == 0 {
@@ -1151,7 +1252,7 @@ Print c14_okta_violating.
 			}
 			if s < nSkel { // deterministic skeletons: spaced failures only / with lock-out waits; 4..7 = 0..3 with cleanup passes
 				gap = 2200e6
-				if s%4 >= 2 && i%6 == 5 {
+				if sk >= 2 && i%6 == 5 {
 					gap = int64(i/6+1)*3600e9 + 3e9
 				}
 			}
@@ -1163,7 +1264,7 @@ Print c14_okta_violating.
 			user := users[ui]
 			// a pass of the periodic cleanup between two guesses (the daemon makes one every 30 s):
 			// skeletons 4..7 make one before every guess, the random scenarios before a quarter of them
-			if c14CleanupOnce != nil && (s >= 4 && s < nSkel || s >= nSkel && rng.Intn(4) == 0) {
+			if c14CleanupOnce != nil && (s < nSkel && shape >= 4 && shape < 8 || s >= nSkel && rng.Intn(4) == 0) {
 				for { // off the knife edges of every entry, whatever a cleanup may compare
 					moved := false
 					for _, u := range users {
@@ -1183,8 +1284,9 @@ Print c14_okta_violating.
 				c14CleanupOnce(tenv.state)
 				res.bump("totp:cleanup-pass")
 				for cu := range users {
-					o := c14TotpObs{cleanup: true, user: cu, t: virtual, tm: virtual, verdict: 3}
+					o := c14TotpObs{cleanup: true, user: cu, t: virtual, tm: virtual, verdict: 3, code: -2}
 					o.lc, o.fc, o.lf, o.lo = tt.entry(users[cu])
+					o.preMem, o.postMem = tt.memCounter(users[cu]), tt.memCounter(users[cu])
 					obs = append(obs, o)
 				}
 				virtual += 30e6 + rng.Int63n(400e6) // the guess follows a little later
@@ -1211,29 +1313,74 @@ Print c14_okta_violating.
 				case failBias == 2 && x < 4:
 					verdict = 0
 				}
-			} else if s%4 == 1 && i == 7 || s%4 == 3 && i == 20 {
+			} else if sk == 1 && i == 7 || sk == 3 && i == 20 {
 				verdict = 0
+			} else if shape == 8 {
+				verdict = []int{0, 1, 1, 2, 2, 2}[i%6]
+			}
+			cached := false
+			if s < nSkel {
+				cached = mode == 1 || mode == 2 && i%2 == 0 || mode == 3 && (i/5)%2 == 0
+			} else {
+				cached = cachedBias == 1 && rng.Intn(4) == 0 || cachedBias == 2 && rng.Intn(2) == 0
 			}
 			now := time.Now()
 			var code int
+			step := int64(-1)
 			switch verdict {
 			case 0:
 				tt.setLast(t, user, 0)
 				cs, _ := totp.GenerateCode(tt.secret[user], now)
 				code, _ = strconv.Atoi(cs)
+				step = now.Unix() / 30
 			case 1:
-				tt.setLast(t, user, now.Unix()/30+5)
+				// a used code: either the guard is what the code itself left behind when it accepted this very
+				// step earlier in the scenario (nothing forced: in cached mode only the remembered step can
+				// refuse it), or the last accepted step is put ahead by hand
+				step = now.Unix() / 30
+				if acc, have := lastAccStep[ui]; have && acc == step && (shape == 8 || s >= nSkel && rng.Intn(2) == 0) {
+					res.bump("totp:used-code-natural")
+				} else {
+					tt.setLast(t, user, now.Unix()/30+5)
+				}
 				cs, _ := totp.GenerateCode(tt.secret[user], now)
 				code, _ = strconv.Atoi(cs)
 			default:
 				code = c14Garbage(tt.secret[user], now)
 			}
-			tt.setVirtual(virtual)
-			ok, err := tenv.state.validateUserTOTP(user, code, time.Now())
+			o := c14TotpObs{user: ui, t: virtual, verdict: verdict, cached: cached, code: step}
+			o.preMem, o.prePers = tt.memCounter(user), tt.persistedCounter(t, user)
+			var ok bool
+			var err error
+			if cached {
+				tt.cachePrepare(t)
+				tt.setVirtual(virtual)
+				var probed bool
+				probe := cachedAttempts%8 == 0
+				ok, err, probed = tt.validateCached(t, user, code, probe)
+				cachedAttempts++
+				if probe {
+					cacheProbes++
+				}
+				if probed {
+					cachedProbed++
+				}
+				res.bump("totp:attempt-from-cache")
+			} else {
+				tt.setVirtual(virtual)
+				ok, err = tenv.state.validateUserTOTP(user, code, time.Now())
+			}
 			if err != nil {
 				t.Fatalf("validateUserTOTP: %v", err)
 			}
-			o := c14TotpObs{user: ui, t: virtual, verdict: verdict, ok: ok}
+			o.ok = ok
+			o.postMem, o.postPer = tt.memCounter(user), tt.persistedCounter(t, user)
+			if ok && verdict == 0 {
+				lastAccStep[ui] = step
+			}
+			if verdict == 0 && !ok {
+				delete(lastAccStep, ui) // setLast(0) cleared the guard and nothing was accepted
+			}
 			prevLc := int64(0)
 			for j := len(obs) - 1; j >= 0; j-- {
 				if obs[j].user == ui {
@@ -1261,6 +1408,7 @@ Print c14_okta_violating.
 			prevLc := int64(0)
 			streak, lastFailGhost := int64(0), int64(0) // the harness's own count of consecutive evaluated failures
 			cleanupInStreak := false                    // a cleanup pass ran since the current streak of failures began
+			cachedSeen := false                         // the user's history so far contains attempts served from the cache
 			for oi, o := range obs {
 				if o.user != ui {
 					continue
@@ -1274,6 +1422,11 @@ Print c14_okta_violating.
 				}
 				passed := o.lc != prevLc
 				prevLc = o.lc
+				cachedSeen = cachedSeen || o.cached
+				srcKey, srcNote := "", ""
+				if cachedSeen {
+					srcKey, srcNote = ":cached", " (attempts of this history were served while the primary profile database did not answer: profile from the cache)"
+				}
 				if passed && o.lc != 0 {
 					// o.lc is the clock reading the code stored when the attempt got past the spacing test
 					if lastPass >= 0 && o.lc-lastPass < 2e9-1e6 {
@@ -1286,8 +1439,8 @@ Print c14_okta_violating.
 					lastPass = o.t // an accepted code was evaluated, at the earliest when the harness set the clock
 				}
 				if o.ok && o.t < lockedUntil-50e6 {
-					res.hit(verifHit{Key: "C14:totp:accepted-while-locked", Oracle: "verification is refused during the lock-out",
-						What: fmt.Sprintf("a correct code of %s was accepted %d s before the end of lock-out no. %d", users[ui], (lockedUntil-o.t)/1e9, lockK), Case: map[string]interface{}{"scenario": s}})
+					res.hit(verifHit{Key: "C14:totp:accepted-while-locked" + srcKey, Oracle: "verification is refused during the lock-out",
+						What: fmt.Sprintf("a correct code of %s was accepted %d s before the end of lock-out no. %d%s", users[ui], (lockedUntil-o.t)/1e9, lockK, srcNote), Case: map[string]interface{}{"scenario": s, "history": c14History(obs[:oi+1], ui)}})
 				}
 				if !passed || o.t < lockedUntil {
 					continue
@@ -1314,8 +1467,8 @@ Print c14_okta_violating.
 							if cleanupInStreak {
 								key, extra = "C14:totp:no-lockout:cleanup-pass", " (cleanup passes ran between these failures)"
 							}
-							res.hit(verifHit{Key: key, Oracle: "the 5k-th consecutive failure locks verification out for k hours",
-								What: fmt.Sprintf("%s: consecutive failure no. %d%s; lock-out ends %d s later (expected %d s)", users[ui], streak, extra, (o.lo-o.t)/1e9, k*3600), Case: map[string]interface{}{"scenario": s, "failures": streak, "history": c14History(obs[:oi+1], ui)}})
+							res.hit(verifHit{Key: key + srcKey, Oracle: "the 5k-th consecutive failure locks verification out for k hours",
+								What: fmt.Sprintf("%s: consecutive failure no. %d%s%s; lock-out %s (expected to end %d s later)", users[ui], streak, extra, srcNote, c14LockText(o.lo, o.t), k*3600), Case: map[string]interface{}{"scenario": s, "failures": streak, "history": c14History(obs[:oi+1], ui)}})
 						}
 						lockedUntil, lockK = want, k
 					}
@@ -1330,6 +1483,10 @@ Print c14_okta_violating.
 		}
 		res.eval(fmt.Sprintf("totp|%v", obs), nontrivial)
 		scen = append(scen, obs)
+	}
+	res.Extra["totp_cached"] = map[string]interface{}{"attempts_served_from_cache": cachedAttempts, "probe_reads": cacheProbes, "probe_read_came_from_cache": cachedProbed}
+	if cachedAttempts == 0 || cachedProbed == 0 {
+		res.hit(verifHit{Key: "C14:harness:cache-not-reached", Oracle: "harness", What: fmt.Sprintf("%d attempts were to be served from the cache database; %d probe reads made under the same conditions came from the cache %d times", cachedAttempts, cacheProbes, cachedProbed), Case: "totp-cached"})
 	}
 	coq.WriteString("(* TOTP scenarios: (user, virtual time ns, verdict 0 fresh/1 replay/2 no match, accepted, lastCheck, failCount, lastFail, lockout) *)\n")
 	coq.WriteString("Definition totp_k : consts := {| min_secs := minSecsBetweenTOTPValidations; reset_hours := numHoursForLocalTOTPRateLimitReset; every := numFailedTOTPChecksForTimeoutIncrease |}.\n")
@@ -1372,7 +1529,37 @@ Fixpoint totp_agree (m : users) (l : list (N * Z * Z * bool * (Z * Z * Z * Z))) 
 		coq.WriteString("\n")
 		idx.WriteString(fmt.Sprintf("totp %d\t%d attempts\n", si, len(obs)))
 	}
-	coq.WriteString("].\nDefinition c14_totp_mismatches := Eval vm_compute in mismatches (fun l => match totp_agree (fun _ => rl0) l 0 with [] => false | _ => true end) totp_cases.\nPrint c14_totp_mismatches.\n")
+	coq.WriteString("].\n")
+	// the same steps with the read source and the replay guard: (user, time, served from the cache, step of the
+	// submitted code / -1 no step / -2 cleanup pass, accepted, (remembered, persisted) step of the last success
+	// before, entry after, (remembered, persisted) after) vs attempt_src on the observed pre-state
+	coq.WriteString(`Definition code_of (z : Z) : code := if z <? 0 then Wrong else Matches z.
+Fixpoint src_agree (m : users) (l : list ((N * Z * Z * bool * (Z * Z * Z * Z)) * (bool * Z * (Z * Z) * (Z * Z)))) (i : nat) : list nat :=
+  match l with [] => [] | ((u, t, _, ok, obs), (cached, cz, (pm, pp), (qm, qp))) :: r =>
+    let good :=
+      if cz =? -2 then entry_same (cleanup totp_k purge_never (m u) t) obs && (qm =? pm)
+      else let (s1, o) := attempt_src totp_k true cached {| thr := m u; mem := pm; persisted := pp |} t (code_of cz) in
+           Bool.eqb (accepted o) ok && entry_ok (thr s1) obs && (mem s1 =? qm) && (persisted s1 =? qp) in
+    (if good then [] else [i]) ++ src_agree (upd m u (rl_of obs)) r (S i) end.
+`)
+	coq.WriteString("Definition totp_src_extra : list (list (bool * Z * (Z * Z) * (Z * Z))) := [\n")
+	for si, obs := range scen {
+		coq.WriteString(" [")
+		for i, o := range obs {
+			if i > 0 {
+				coq.WriteString(";")
+			}
+			coq.WriteString(fmt.Sprintf("(%s,%d,(%d,%d),(%d,%d))", coqBool(o.cached), o.code, o.preMem, o.prePers, o.postMem, o.postPer))
+		}
+		coq.WriteString("]")
+		if si < len(scen)-1 {
+			coq.WriteString(";")
+		}
+		coq.WriteString("\n")
+	}
+	coq.WriteString("].\nDefinition totp_src_cases := map (fun p => combine (fst p) (snd p)) (combine totp_cases totp_src_extra).\nDefinition c14_totp_src_mismatches := Eval vm_compute in mismatches (fun l => match src_agree (fun _ => rl0) l 0 with [] => false | _ => true end) totp_src_cases.\nPrint c14_totp_src_mismatches.\n")
+	coq.WriteString("Definition c14_totp_src_first := Eval vm_compute in match c14_totp_src_mismatches with [] => [] | i :: _ => src_agree (fun _ => rl0) (nth i totp_src_cases []) 0 end.\nPrint c14_totp_src_first.\n")
+	coq.WriteString("Definition c14_totp_mismatches := Eval vm_compute in mismatches (fun l => match totp_agree (fun _ => rl0) l 0 with [] => false | _ => true end) totp_cases.\nPrint c14_totp_mismatches.\n")
 	coq.WriteString("Definition c14_totp_first := Eval vm_compute in match c14_totp_mismatches with [] => [] | i :: _ => totp_agree (fun _ => rl0) (nth i totp_cases []) 0 end.\nPrint c14_totp_first.\n")
 	// the property's own predicate on the observed transition of every step on which model and code differ:
 	// a broken correspondence whose observation violates the statement comes with its input
@@ -1422,6 +1609,9 @@ Print c14_totp_violating.
 				what := "cleanup-pass"
 				if !o.cleanup {
 					what = []string{"fresh-code", "used-code", "wrong-code"}[o.verdict]
+					if o.cached {
+						what = "cached+" + what
+					}
 				}
 				tidx.WriteString(fmt.Sprintf("[%d %s +%.3fs %s accepted=%v entry-after(lastCheck=+%.3fs failCount=%d lockout=+%.3fs)] ", i, users[o.user], float64(o.t-t0)/1e9, what, o.ok,
 					rel(o.lc, t0), o.fc, rel(o.lo, t0)))
